@@ -7,6 +7,7 @@ def check(ctx):
                               ('PriorityStore', '_do_get'), ('PriorityItem', '__lt__')])
     elements.send_packet_awaited(ctx, 'C12')
     elements.server_yield_whitelist(ctx, 'C12')
+    elements.departure_bookkeeping_atomic(ctx, 'C12')
     keydomains.check(ctx, 'C12')
     elements.spawn_sites(ctx, 'C12', only=('SP', 'WFQ', 'VC', 'DRR', 'RR', 'WRR', 'Monitor'))
     elements.class_method_sets(ctx, 'C12', only=('Scheduler', 'MultiQueueScheduler', 'SP', 'WFQ', 'VC', 'DRR', 'RR', 'WRR', 'Monitor'))
